@@ -28,6 +28,9 @@ use serde::{Deserialize, Serialize};
 
 pub struct C11;
 
+/// C17's extremes scenario: same executor, generator biased to the documented configuration extremes.
+pub struct C17Extremes;
+
 #[derive(Clone, Serialize, Deserialize)]
 pub struct Cfg {
     pub fam: String,
@@ -45,6 +48,9 @@ pub enum Act {
     Merge { vals: Vec<u64>, b: u64 },
     /// family-specific local operation (theta trim, Bloom invert, Count-Min halve / decay, ...)
     Local { op: u8 },
+    /// HLL: staircase over every slot up to value `cols` (with a sprinkle of much larger values);
+    /// CPC: column-major fill of `cols` columns; a compact action for large-lg_k spot runs
+    Fill { cols: u8, seed: u64 },
     Checkpoint { sync: bool },
     Crash { torn: bool },
     /// compare now (also done after every operation once a restart has happened)
@@ -104,7 +110,7 @@ impl Node {
         match cfg.fam.as_str() {
             "hll" => Node::Hll(HllSketch::new((cfg.a as u8).clamp(4, 21), ty(cfg.b))),
             "hll_union" => Node::HllU(HllUnion::new((cfg.a as u8).clamp(4, 21)), (cfg.b % 3) as u8),
-            "cpc" => Node::Cpc(CpcSketch::new((cfg.a as u8).clamp(4, 16))),
+            "cpc" => Node::Cpc(CpcSketch::new((cfg.a as u8).clamp(4, 22))),
             "cpc_union" => Node::CpcU(CpcUnion::new((cfg.a as u8).clamp(4, 16))),
             "theta" => {
                 let rf = match cfg.b % 4 {
@@ -157,6 +163,39 @@ impl Node {
             }
             Node::Fi(s, _) => vals.iter().for_each(|&v| s.update((v % 700) as u32, 1 + w % 5)),
             Node::Td(d) => vals.iter().for_each(|&v| d.update(f64::from_bits(v))),
+        }
+    }
+
+    fn fill(&mut self, cols: u8, seed: u64) {
+        let skip = |i: u32, c: u32| (i.wrapping_mul(2654435761) ^ c.wrapping_mul(40503) ^ (seed as u32)) % 64 == 0;
+        match self {
+            Node::Hll(s) => {
+                let k = 1u32 << s.lg_config_k();
+                for v in 1..=(cols as u32).min(40) {
+                    for i in 0..k {
+                        let slot = i.wrapping_mul(0x9E37_79B1) & (k - 1);
+                        if skip(slot, v) {
+                            continue;
+                        }
+                        s.verif_update_with_coupon((v << 26) | slot);
+                        if (slot ^ seed as u32) % 512 == 0 {
+                            s.verif_update_with_coupon(((v + 17 + slot % 7).min(63) << 26) | slot);
+                        }
+                    }
+                }
+            }
+            Node::Cpc(s) => {
+                let k = 1u32 << s.lg_k();
+                for c in 0..(cols as u32).min(40) {
+                    for i in 0..k {
+                        let row = i.wrapping_mul(0x9E37_79B1) & (k - 1);
+                        if !skip(row, c) {
+                            s.verif_row_col_update((row << 6) | c);
+                        }
+                    }
+                }
+            }
+            _ => {}
         }
     }
 
@@ -662,6 +701,11 @@ impl Scenario for C11 {
                     lib_call("merge(twin)", || twin.merge(vals, *b))?;
                     wal.push(act.clone());
                 }
+                Act::Fill { cols, seed } => {
+                    lib_call("fill(primary)", || primary.fill(*cols, *seed))?;
+                    lib_call("fill(twin)", || twin.fill(*cols, *seed))?;
+                    wal.push(act.clone());
+                }
                 Act::Local { op } => {
                     lib_call("local(primary)", || primary.local(*op))?;
                     lib_call("local(twin)", || twin.local(*op))?;
@@ -735,6 +779,7 @@ impl Scenario for C11 {
                             Act::Update { vals, w } => lib_call("update(wal replay)", || primary.update(vals, *w))?,
                             Act::Merge { vals, b } => lib_call("merge(wal replay)", || primary.merge(vals, *b))?,
                             Act::Local { op } => lib_call("local(wal replay)", || primary.local(*op))?,
+                            Act::Fill { cols, seed } => lib_call("fill(wal replay)", || primary.fill(*cols, *seed))?,
                             Act::Checkpoint { .. } => {
                                 if let Node::Td(d) = &mut primary {
                                     let _ = lib_call("serialize(wal replay)", || d.serialize())?;
@@ -793,5 +838,88 @@ impl Scenario for C11 {
             Act::Crash { torn: true } => vec![Act::Crash { torn: false }],
             _ => vec![],
         }
+    }
+}
+
+impl Scenario for C17Extremes {
+    type Cfg = Cfg;
+    type Act = Act;
+    fn name(&self) -> &'static str {
+        "c17_extremes"
+    }
+    fn runs(&self, tier: Tier) -> u64 {
+        match tier {
+            Tier::Quick => 6_000,
+            Tier::Thorough => 300_000,
+        }
+    }
+    fn generate(&self, rng: &mut Rng, tier: Tier) -> (Cfg, Vec<Act>) {
+        // documented extremes: HLL lg_k 4 and 21; CPC 4, 16, 21; theta 5; t-digest k = 10;
+        // FI map size 8; Bloom 1 bit / 1 hash; Count-Min 1 x 3 with narrow counters
+        let fam = *rng.pick(FAMS);
+        let big_ok = rng.chance(1, if tier == Tier::Quick { 40 } else { 20 });
+        let (a, b) = match fam {
+            "hll" | "hll_union" => (if big_ok { 21 } else { 4 }, rng.below(3)),
+            "cpc" | "cpc_union" => (if big_ok && fam == "cpc" { *rng.pick(&[16u64, 21]) } else { 4 }, 0),
+            "theta" => (5, rng.below(4)),
+            "bloom" => (1, 1),
+            "cm" => (1, 3),
+            "fi" => (3, rng.below(3)),
+            _ => (10, 0),
+        };
+        // Count-Min: the counter type is seed % 8; prefer the narrow ones
+        let mut seed = rng.next_u64();
+        if fam == "cm" && rng.chance(3, 4) {
+            seed = (seed & !7) | *rng.pick(&[0u64, 4, 1, 5]);
+        }
+        let cfg = Cfg { fam: fam.to_string(), a, b, seed };
+        let mut acts = vec![];
+        let large = a >= 16 && (fam == "hll" || fam == "cpc");
+        let steps = if large { 3 + rng.usize_below(4) } else { 8 + rng.usize_below(30) };
+        let shape = rng.below(10) as u8;
+        for _ in 0..steps {
+            let n = match rng.below(4) {
+                0 => rng.usize_below(9),
+                1 => rng.usize_below(100),
+                _ => rng.usize_below(match fam { "td" => 4000, "theta" => 600, _ => 1500 }),
+            };
+            let vals: Vec<u64> = match fam {
+                "hll" => gen_coupons(rng, a as u8, n.max(1)).into_iter().map(|c| c as u64).collect(),
+                "cpc" => gen_row_cols(rng, a as u8, n.max(1), true).into_iter().map(|c| c as u64).collect(),
+                "cpc_union" => gen_row_cols(rng, 8, n.min(2000).max(1), true).into_iter().map(|c| c as u64).collect(),
+                "theta" => (0..n).map(|_| rng.next_u64() >> rng.range(1, 30)).collect(),
+                "td" => (0..n).map(|i| crate::scen::c10::gen_value(rng, shape, i as u64, n as u64, 1.0).to_bits()).collect(),
+                _ => (0..n).map(|_| if rng.chance(1, 2) { rng.below(12) } else { rng.next_u64() }).collect(),
+            };
+            match rng.below(20) {
+                0..=7 => acts.push(Act::Update { vals, w: rng.next_u64() }),
+                8 if large => acts.push(Act::Fill { cols: rng.range(1, if fam == "hll" { 3 } else { 6 }) as u8, seed: rng.next_u64() }),
+                8..=10 => {
+                    let v = match fam {
+                        "hll_union" => { let lgp = *rng.pick(&[4u8, 12, 14]); gen_coupons(rng, lgp, n.min(3000).max(1)) }.into_iter().map(|c| c as u64).collect(),
+                        _ => vals,
+                    };
+                    acts.push(Act::Merge { vals: v, b: rng.next_u64() })
+                }
+                11..=12 => acts.push(Act::Local { op: rng.next_u32() as u8 }),
+                13..=15 => acts.push(Act::Checkpoint { sync: rng.chance(2, 3) }),
+                16..=17 => acts.push(Act::Crash { torn: rng.chance(1, 2) }),
+                _ => acts.push(Act::Compare),
+            }
+        }
+        if large {
+            acts.insert(0, Act::Fill { cols: rng.range(1, if fam == "hll" { 3 } else { 6 }) as u8, seed: rng.next_u64() });
+        }
+        acts.push(Act::Checkpoint { sync: true });
+        acts.push(Act::Crash { torn: false });
+        acts.push(Act::Compare);
+        (cfg, acts)
+    }
+    fn execute(&self, cfg: &Cfg, acts: &[Act], st: &mut RunStats) -> Result<(), Violation> {
+        st.probe(&format!("extreme_{}_{}", cfg.fam, cfg.a));
+        C11.execute(cfg, acts, st)
+    }
+    fn shrink_action(&self, a: &Act) -> Vec<Act> {
+        C11.shrink_action(a)
     }
 }
